@@ -293,11 +293,13 @@ def mergeWithBoth : Nat → Option Nat
   | _ => none
 
 /-- The NegotiatedConfig built in the two accepting arms: `min` of the hold times; for
-every ADD-PATH entry of the peer whose family we are configured for, the merged direction. -/
+every configured ADD-PATH family (in configuration order) the peer's FIRST entry for it, merged
+with SendReceive (`config.addpath().iter().filter_map(|fam| received.iter().find(..)…)`, as
+`OpenMessage::addpath_intersection` does; after the first-match fix). -/
 def negotiate (cfg : Cfg) (o : OpenInfo) : Neg :=
   { hold := min o.hold cfg.localHold, asn := o.asn,
-    ap := o.ap.filterMap fun p =>
-      if cfg.addpath.contains p.1 then (mergeWithBoth p.2).map fun d => (p.1, d) else none }
+    ap := cfg.addpath.filterMap fun f =>
+      ((o.ap.find? fun p => p.1 == f).bind fun p => mergeWithBoth p.2).map fun d => (f, d) }
 
 def defaultOpen : OpenInfo := ⟨0, 0, []⟩
 
